@@ -103,6 +103,32 @@ func pricedRanges(e *Env, v ssa.Value, depth int, seen map[ssa.Value]bool) ([]ar
 			if r, ok := argRangeOfTerm(e.Term(arg)); ok && r.hi == r.lo+1 {
 				return []argRange{r}, true
 			}
+			// the head of a list that a loop consumes one element at a time (`for ; len(xs) > 0; xs = xs[1:] { … xs[0] … }`)
+			if ld, ok := arg.(*ssa.UnOp); ok && ld.Op == token.MUL {
+				if ia, ok := ld.X.(*ssa.IndexAddr); ok {
+					if ph, isPhi := ia.X.(*ssa.Phi); isPhi {
+						if k, isK := constInt(ia.Index); isK && k == 0 {
+							if init, adv, ok := e.sliceInduction(ph); ok && len(adv.c) == 1 && adv.k == 0 {
+								one := false
+								for _, cf := range adv.c {
+									one = cf == 1
+								}
+								if one {
+									ie, iv := e, init
+									if par, isPar := init.(*ssa.Parameter); isPar {
+										if a, pe := e.actual(par); a != nil {
+											ie, iv = pe, a
+										}
+									}
+									if r, ok := argRangeOfTerm(ie.Term(iv)); ok {
+										return []argRange{r}, true
+									}
+								}
+							}
+						}
+					}
+				}
+			}
 			// the element of a list that a loop walks: every position of that list
 			if ld, ok := arg.(*ssa.UnOp); ok && ld.Op == token.MUL {
 				if ia, ok := ld.X.(*ssa.IndexAddr); ok {
